@@ -10,8 +10,9 @@
        the mutex;
      - consumers (C10): Wait / ResolveWithReleased / Access callers, see the second half of the file.
    Values: the resolver call on goroutine g returns value g+1 (or the empty value 0), optionally a release function
-   (identified with g) and an error code (0 = nil).  Contexts: the root context is a number (0 = nil), never
-   cancelled from outside; the resolve context of goroutine g is identified with g ([gcanc]).
+   (identified with g) and an error code (0 = nil).  Contexts: a root context is a number (0 = nil); its owner may
+   cancel it ([ECancelRoot]), which cancels the resolve contexts derived from it; the resolve context of goroutine g is
+   identified with g ([gcanc]).
    No proofs in this file. *)
 From Util Require Import Common.Base Common.ListLemmas.
 
@@ -29,7 +30,8 @@ Record ref := { rin : bool; rflag : bool; rkind : cbkind; rlast : option notif }
 
 Inductive gpc := GGate0 | GWait | GWaitC | GInRes | GStore (v : nat) (hasrel : bool) (e : nat) | GDone.
 Record gor := { gcanc : bool; gwait : option nat; gnonce : nat; gpcv : gpc; gent : bool (* the resolver was entered *);
-                grel : bool (* ghost: the resolver call returned a release function *) }.
+                grel : bool (* ghost: the resolver call returned a release function *);
+                groot : nat (* the root context its resolve context derives from *) }.
 
 (* one call of a release function: which one, what the target held at that moment, how many present references
    had last been told that this value is current *)
@@ -81,71 +83,78 @@ Record st := {
   relacts : list relact;
   conss : list cons;
   panicked : bool;
+  rootc : list nat;                 (* root contexts that were cancelled by their owner *)
 }.
 
 Definition init (keepUnref : bool) : st :=
   {| kctx := 0; keep := keepUnref; refs := []; rcancel := None; nonce := 0; waitch := None;
      resolved := false; value := 0; verr := 0; vrel := None; vgen := 0; target := 0; terr := 0;
-     gs := []; rellog := []; asyncs := []; relacts := []; conss := []; panicked := false |}.
+     gs := []; rellog := []; asyncs := []; relacts := []; conss := []; panicked := false; rootc := [] |}.
 
 (* ---------- setters ---------- *)
 Definition upd (s : st) (f : st -> st) : st := f s.
 Definition set_kctx (s : st) (x : nat) : st :=
   {| kctx := x; keep := keep s; refs := refs s; rcancel := rcancel s; nonce := nonce s; waitch := waitch s; resolved := resolved s;
      value := value s; verr := verr s; vrel := vrel s; vgen := vgen s; target := target s; terr := terr s; gs := gs s; rellog := rellog s;
-     asyncs := asyncs s; relacts := relacts s; conss := conss s; panicked := panicked s |}.
+     asyncs := asyncs s; relacts := relacts s; conss := conss s; panicked := panicked s; rootc := rootc s |}.
 Definition set_refs (s : st) (x : list ref) : st :=
   {| kctx := kctx s; keep := keep s; refs := x; rcancel := rcancel s; nonce := nonce s; waitch := waitch s; resolved := resolved s;
      value := value s; verr := verr s; vrel := vrel s; vgen := vgen s; target := target s; terr := terr s; gs := gs s; rellog := rellog s;
-     asyncs := asyncs s; relacts := relacts s; conss := conss s; panicked := panicked s |}.
+     asyncs := asyncs s; relacts := relacts s; conss := conss s; panicked := panicked s; rootc := rootc s |}.
 Definition set_rcancel (s : st) (x : option nat) : st :=
   {| kctx := kctx s; keep := keep s; refs := refs s; rcancel := x; nonce := nonce s; waitch := waitch s; resolved := resolved s;
      value := value s; verr := verr s; vrel := vrel s; vgen := vgen s; target := target s; terr := terr s; gs := gs s; rellog := rellog s;
-     asyncs := asyncs s; relacts := relacts s; conss := conss s; panicked := panicked s |}.
+     asyncs := asyncs s; relacts := relacts s; conss := conss s; panicked := panicked s; rootc := rootc s |}.
 Definition set_nonce (s : st) (x : nat) : st :=
   {| kctx := kctx s; keep := keep s; refs := refs s; rcancel := rcancel s; nonce := x; waitch := waitch s; resolved := resolved s;
      value := value s; verr := verr s; vrel := vrel s; vgen := vgen s; target := target s; terr := terr s; gs := gs s; rellog := rellog s;
-     asyncs := asyncs s; relacts := relacts s; conss := conss s; panicked := panicked s |}.
+     asyncs := asyncs s; relacts := relacts s; conss := conss s; panicked := panicked s; rootc := rootc s |}.
 Definition set_waitch (s : st) (x : option nat) : st :=
   {| kctx := kctx s; keep := keep s; refs := refs s; rcancel := rcancel s; nonce := nonce s; waitch := x; resolved := resolved s;
      value := value s; verr := verr s; vrel := vrel s; vgen := vgen s; target := target s; terr := terr s; gs := gs s; rellog := rellog s;
-     asyncs := asyncs s; relacts := relacts s; conss := conss s; panicked := panicked s |}.
+     asyncs := asyncs s; relacts := relacts s; conss := conss s; panicked := panicked s; rootc := rootc s |}.
 (* resolved, value, valueErr, valueRel, generation *)
 Definition set_val (s : st) (r : bool) (v e : nat) (rel : option nat) (g : nat) : st :=
   {| kctx := kctx s; keep := keep s; refs := refs s; rcancel := rcancel s; nonce := nonce s; waitch := waitch s; resolved := r;
      value := v; verr := e; vrel := rel; vgen := g; target := target s; terr := terr s; gs := gs s; rellog := rellog s;
-     asyncs := asyncs s; relacts := relacts s; conss := conss s; panicked := panicked s |}.
+     asyncs := asyncs s; relacts := relacts s; conss := conss s; panicked := panicked s; rootc := rootc s |}.
 Definition set_target (s : st) (t te : nat) : st :=
   {| kctx := kctx s; keep := keep s; refs := refs s; rcancel := rcancel s; nonce := nonce s; waitch := waitch s; resolved := resolved s;
      value := value s; verr := verr s; vrel := vrel s; vgen := vgen s; target := t; terr := te; gs := gs s; rellog := rellog s;
-     asyncs := asyncs s; relacts := relacts s; conss := conss s; panicked := panicked s |}.
+     asyncs := asyncs s; relacts := relacts s; conss := conss s; panicked := panicked s; rootc := rootc s |}.
 Definition set_gs (s : st) (x : list gor) : st :=
   {| kctx := kctx s; keep := keep s; refs := refs s; rcancel := rcancel s; nonce := nonce s; waitch := waitch s; resolved := resolved s;
      value := value s; verr := verr s; vrel := vrel s; vgen := vgen s; target := target s; terr := terr s; gs := x; rellog := rellog s;
-     asyncs := asyncs s; relacts := relacts s; conss := conss s; panicked := panicked s |}.
+     asyncs := asyncs s; relacts := relacts s; conss := conss s; panicked := panicked s; rootc := rootc s |}.
 Definition set_rellog (s : st) (x : list relcall) : st :=
   {| kctx := kctx s; keep := keep s; refs := refs s; rcancel := rcancel s; nonce := nonce s; waitch := waitch s; resolved := resolved s;
      value := value s; verr := verr s; vrel := vrel s; vgen := vgen s; target := target s; terr := terr s; gs := gs s; rellog := x;
-     asyncs := asyncs s; relacts := relacts s; conss := conss s; panicked := panicked s |}.
+     asyncs := asyncs s; relacts := relacts s; conss := conss s; panicked := panicked s; rootc := rootc s |}.
 Definition set_asyncs (s : st) (x : list async) : st :=
   {| kctx := kctx s; keep := keep s; refs := refs s; rcancel := rcancel s; nonce := nonce s; waitch := waitch s; resolved := resolved s;
      value := value s; verr := verr s; vrel := vrel s; vgen := vgen s; target := target s; terr := terr s; gs := gs s; rellog := rellog s;
-     asyncs := x; relacts := relacts s; conss := conss s; panicked := panicked s |}.
+     asyncs := x; relacts := relacts s; conss := conss s; panicked := panicked s; rootc := rootc s |}.
 Definition set_relacts (s : st) (x : list relact) : st :=
   {| kctx := kctx s; keep := keep s; refs := refs s; rcancel := rcancel s; nonce := nonce s; waitch := waitch s; resolved := resolved s;
      value := value s; verr := verr s; vrel := vrel s; vgen := vgen s; target := target s; terr := terr s; gs := gs s; rellog := rellog s;
-     asyncs := asyncs s; relacts := x; conss := conss s; panicked := panicked s |}.
+     asyncs := asyncs s; relacts := x; conss := conss s; panicked := panicked s; rootc := rootc s |}.
 Definition set_conss (s : st) (x : list cons) : st :=
   {| kctx := kctx s; keep := keep s; refs := refs s; rcancel := rcancel s; nonce := nonce s; waitch := waitch s; resolved := resolved s;
      value := value s; verr := verr s; vrel := vrel s; vgen := vgen s; target := target s; terr := terr s; gs := gs s; rellog := rellog s;
-     asyncs := asyncs s; relacts := relacts s; conss := x; panicked := panicked s |}.
+     asyncs := asyncs s; relacts := relacts s; conss := x; panicked := panicked s; rootc := rootc s |}.
 Definition set_panicked (s : st) : st :=
   {| kctx := kctx s; keep := keep s; refs := refs s; rcancel := rcancel s; nonce := nonce s; waitch := waitch s; resolved := resolved s;
      value := value s; verr := verr s; vrel := vrel s; vgen := vgen s; target := target s; terr := terr s; gs := gs s; rellog := rellog s;
-     asyncs := asyncs s; relacts := relacts s; conss := conss s; panicked := true |}.
+     asyncs := asyncs s; relacts := relacts s; conss := conss s; panicked := true; rootc := rootc s |}.
+
+Definition set_rootc (s : st) (x : list nat) : st :=
+  {| kctx := kctx s; keep := keep s; refs := refs s; rcancel := rcancel s; nonce := nonce s; waitch := waitch s; resolved := resolved s;
+     value := value s; verr := verr s; vrel := vrel s; vgen := vgen s; target := target s; terr := terr s; gs := gs s; rellog := rellog s;
+     asyncs := asyncs s; relacts := relacts s; conss := conss s; panicked := panicked s; rootc := x |}.
+Definition rcanc (s : st) (c : nat) : bool := existsb (Nat.eqb c) (rootc s).
 
 Definition ref0 : ref := {| rin := false; rflag := true; rkind := KNil; rlast := None |}.
-Definition gor0 : gor := {| gcanc := true; gwait := None; gnonce := 0; gpcv := GDone; gent := false; grel := false |}.
+Definition gor0 : gor := {| gcanc := true; gwait := None; gnonce := 0; gpcv := GDone; gent := false; grel := false; groot := 0 |}.
 Definition cons0 : cons :=
   {| ck := CKWait; cref := 0; ccanc := true; cpcv := CRet 0 1 false; cw_res := None; ww_res := false; ww_nonce := 0; ww_prom := None;
      ww_once := false; ww_fired := 0; ww_firepc := None; ac_val := 0; ac_err := 0; ac_res := false; ac_nonce := 0; ac_snap := 0;
@@ -157,7 +166,7 @@ Definition setg (s : st) (g : nat) (x : gor) : st := set_gs s (set_nth (gs s) g 
 Definition setc (s : st) (c : nat) (x : cons) : st := set_conss s (set_nth (conss s) c x).
 Definition with_gpc (x : gor) (p : gpc) : gor :=
   {| gcanc := gcanc x; gwait := gwait x; gnonce := gnonce x; gpcv := p; gent := match p with GInRes => true | _ => gent x end;
-     grel := match p with GStore _ hr _ => hr | _ => grel x end |}.
+     grel := match p with GStore _ hr _ => hr | _ => grel x end; groot := groot x |}.
 Definition nrefs (s : st) : nat := cnt rin (refs s).
 
 (* ---------- consumers' reference callbacks ---------- *)
@@ -251,7 +260,7 @@ Definition call_cbs (s : st) (n : notif) : st :=
 Definition cancel_g (s : st) (og : option nat) : st :=
   match og with
   | Some g => match nth_error (gs s) g with
-              | Some x => setg s g {| gcanc := true; gwait := gwait x; gnonce := gnonce x; gpcv := gpcv x; gent := gent x; grel := grel x |}
+              | Some x => setg s g {| gcanc := true; gwait := gwait x; gnonce := gnonce x; gpcv := gpcv x; gent := gent x; grel := grel x; groot := groot x |}
               | None => s
               end
   | None => s
@@ -286,8 +295,15 @@ Definition start_resolve (s : st) : st :=
   if Nat.eqb (kctx s1) 0 || Nat.eqb (nrefs s1) 0 then s1
   else
     let g := length (gs s1) in
-    let s2 := set_gs s1 (gs s1 ++ [{| gcanc := false; gwait := waitch s1; gnonce := nonce s1; gpcv := GGate0; gent := false; grel := false |}]) in
+    let s2 := set_gs s1 (gs s1 ++ [{| gcanc := rcanc s1 (kctx s1); gwait := waitch s1; gnonce := nonce s1; gpcv := GGate0; gent := false; grel := false;
+                                 groot := kctx s1 |}]) in
     set_rcancel (set_waitch s2 (Some g)) (Some g).
+
+(* the owner of root context c cancels it (without telling the RefCount): every resolve context derived from it is
+   cancelled at once; the RefCount keeps the context installed *)
+Definition cancel_root (s : st) (c : nat) : st :=
+  fold_left (fun s g => if Nat.eqb (groot (getg s g)) c then cancel_g s (Some g) else s) (seq 0 (length (gs s)))
+            (set_rootc s (c :: rootc s)).
 
 (* SetContext(ctx) -> updated *)
 Definition set_context (s : st) (c : nat) : st * bool :=
@@ -506,7 +522,8 @@ Inductive ev :=
 | EConsStep (c : nat)
 | EConsCancel (c : nat)
 | EFire (c : nat)                       (* the goroutine spawned by WaitWithReleased's callback: ref.Release(); released() *)
-| ECbReturn (c res : nat).              (* the callback of Access consumer c returns *)
+| ECbReturn (c res : nat)               (* the callback of Access consumer c returns *)
+| ECancelRoot (c : nat).                (* the owner of root context c cancels it *)
 
 Definition kind_of (k : nat) : cbkind := match k with 0 => KNil | 1 => KLog | _ => KCallsRel end.
 
@@ -544,6 +561,7 @@ Definition step (fx : fixes) (s : st) (e : ev) : st :=
     end
   | EFire c => fire_section s c
   | ECbReturn c res => cb_return fx s c res
+  | ECancelRoot c => if Nat.eqb c 0 then s else cancel_root s c
   end.
 
 Definition run (fx : fixes) (s0 : st) (es : list ev) : st := fold_left (step fx) es s0.
